@@ -65,6 +65,11 @@ func validateType(input any) error {
 		break
 	case system.Collection:
 		for _, elem := range v {
+			if _, nested := elem.(system.Collection); nested {
+				// a collection holds items, never collections: nothing downstream flattens them
+				err = errors.Join(err, fmt.Errorf("%w: %T nested in a collection", ErrUnsupportedType, elem))
+				continue
+			}
 			err = errors.Join(err, validateType(elem))
 		}
 	default:
